@@ -69,4 +69,28 @@ def structuralKeys : List (String × String) :=
 def keyCovered (k : String × String) : Bool :=
   mflTable.any (fun e => e.category = k.1 ∧ e.mode = k.2)
 
+
+/-! ### how the feature table of a multi-valued statement is built
+
+`helpers.funcs` consumes the whole generator (`dict(features)`) before any function is called.  A generator that
+yields `partial(setter, n=count, …)` freezes the arguments per entry (`frozenTable`); one that yields a closure over
+the loop variables has every entry use the values of the *last* iteration (`lateTable`). -/
+
+/-- Keys of `TRANSITS(counts, depots)`: the product, in generator order (`true` = DEPOT). -/
+def transitKeys (counts : List Nat) (depots : List Bool) : List (Nat × Bool) :=
+  counts.flatMap (fun c => depots.map (fun d => (c, d)))
+
+def reqOfTransitKey (k : Nat × Bool) : Req :=
+  if k.2 then .transits k.1 true else .transits (k.1 + 1) false
+
+/-- Arguments frozen per entry (what `functools.partial` does). -/
+def frozenTable {κ : Type} (keys : List κ) (f : κ → Req) : List (κ × Req) :=
+  keys.map (fun k => (k, f k))
+
+/-- Arguments read when the function is called, after the generator is exhausted (late binding). -/
+def lateTable {κ : Type} (keys : List κ) (f : κ → Req) : List (κ × Req) :=
+  match keys.getLast? with
+  | none => []
+  | some l => keys.map (fun k => (k, f l))
+
 end Pharmpy.C08
